@@ -456,7 +456,7 @@ func crCases(c *core.Ctx) ([]json.RawMessage, error) {
 	{
 		nk := 0
 		mkAllOf := func(name, nest, choice string) error {
-			body := fmt.Sprintf("SPECIFICATION Spec\nCONSTANTS\n  N = 2\n  KeySet = {\"k1\", \"k2\"}\n  MaxList = 1\n  APs = {\"absent\", \"false\"}\n  Nest = %s\n  RootChoice = %s\n  OptDefTypes = FALSE\nINVARIANTS Emit\nCHECK_DEADLOCK FALSE\n", nest, choice)
+			body := fmt.Sprintf("SPECIFICATION Spec\nCONSTANTS\n  N = 2\n  KeySet = {\"k1\", \"k2\"}\n  MaxList = 1\n  APs = {\"absent\", \"false\"}\n  Nest = %s\n  RootChoice = %s\n  OptDefTypes = FALSE\n  SelfReg = FALSE\nINVARIANTS Emit\nCHECK_DEADLOCK FALSE\n", nest, choice)
 			var lines []string
 			res, err := tlc.Run(tlc.Opts{Module: "AllOf", Cfg: name, Workers: 8, Files: map[string][]byte{name: []byte(body)}, OnLine: func(l string) { lines = append(lines, l) }})
 			res.Cleanup()
